@@ -2189,7 +2189,30 @@ def m_sort_by_key(ex, n, a, f):
 @model(r'^(std|core|alloc)::slice::<impl \[.*\]>::(sort|sort_unstable)$')
 def m_sort(ex, n, a, f):
     cells = as_cells(ex, a[0])
-    keyed = [(sort_key(ex, c.v), c.v) for c in cells]
+    try:
+        keyed = [(sort_key(ex, c.v), c.v) for c in cells]
+    except Unsupported:
+        # symbolic integers: insertion sort whose comparisons are decisions of the executor (signedness from the element type)
+        vals = [c.v for c in cells]
+        if not all(isinstance(v, int) or z3.is_bv(v) for v in vals):
+            raise
+        m = re.search(r'impl \[(i|u)(\d+|size)\]', n)
+        signed = bool(m and m.group(1) == 'i')
+        bits = max((v.size() for v in vals if z3.is_bv(v)), default=64)
+        out = []
+        for v in vals:
+            i = len(out)
+            while i > 0:
+                x, y = to_bv(out[i - 1], bits), to_bv(v, bits)
+                gt = (x > y) if signed else z3.UGT(x, y)
+                if ex.branch(gt, 'sort-compare'):
+                    i -= 1
+                else:
+                    break
+            out.insert(i, v)
+        for c, v in zip(cells, out):
+            c.v = v
+        return UNIT
     keyed.sort(key=lambda t: t[0])
     for c, (_, v) in zip(cells, keyed):
         c.v = v
